@@ -231,6 +231,7 @@ def build_tu(proj, job):
     for c in order:
         parts.append(T.emit_struct(proj, c, real))
     parts.append(T.capture_decls(contract))
+    cap_declared = set(T.capture_decls(contract).split('\n'))
     ghost_done = set()
     ghost_inits = []
 
@@ -256,6 +257,11 @@ def build_tu(proj, job):
         if not cc.clauses:
             raise ExtractError('no contract file for replaced callee %s (%s)' % (cfi.cname, cc.path))
         parts.append(emit_ghost_of(cc))
+        # ghost captures named in the callee's contract (frame / postconditions) must exist in the caller's translation unit too
+        for dl in T.capture_decls(cc).split('\n'):
+            if dl and dl not in cap_declared:
+                cap_declared.add(dl)
+                parts.append(dl)
         parts.append(T.callee_decl(cfi, cc, ghost=opt.get('ghost', True)))
         callee_contracts.append(cc)
         replace_cnames.append(cfi.cname)
